@@ -52,6 +52,20 @@ CHECKS = {
              "every driver method; 2-3 threads; the proxy driver answers like "
              "a Type 2 tag / FeliCa reader so that connect() runs through "
              "activation, presence check and release."),
+    'C19': dict(
+        category='exploration', design='2/C19',
+        technique="exhaustive grid enumeration of whole-stack activations on "
+                  "a virtual air (real udp driver, NFC-DEP, LLC) with an air "
+                  "frame log oracle",
+        text="For every point of the option grid (brs x lri x lrt x rwt x miu "
+             "per side x lto per side, agf/lsc covered, out-of-range values) "
+             "two complete stacks are activated through connect(llcp=...) over "
+             "the unmodified udp driver on in-memory sockets; the negotiated "
+             "values of both sides are compared with what the peer announced "
+             "and three maximal UI PDUs each way are checked on the air log "
+             "against the receiver's LR and the selected bit rate.",
+        note="Both devices are nfcpy; passive activation at 106A over the "
+             "virtual air; default schedule, no faults (those are C04/C09)."),
 }
 
 NOT_YET = "check not built yet in this round (see DESIGN.md section 2 for the planned design)"
